@@ -358,6 +358,17 @@ func runC01Proc(c C01ProcCase, _ bool) *fOutcome {
 		}
 	}
 	res := do("GET", fmt.Sprintf("http://127.0.0.1:%d/messages?limit=1000&include_payload=true&include_headers=true", pAdmin), nil, nil)
+	for try := 0; res.status == 0 && try < 5; try++ {
+		// no answer at all (client timeout on a saturated machine): ask again
+		time.Sleep(200 * time.Millisecond)
+		res = do("GET", fmt.Sprintf("http://127.0.0.1:%d/messages?limit=1000&include_payload=true&include_headers=true", pAdmin), nil, nil)
+	}
+	if res.status == 0 {
+		stop()
+		out.Skipped = "the restarted process did not answer the listing request in time (machine load)"
+		out.Labels["inconclusive-time-budget"] = true
+		return out
+	}
 	if res.status != 200 {
 		stop()
 		out.Failure = ffail("C01", "list-after-restart", 0, "GET /messages answered %d %s", res.status, res.body)
@@ -527,8 +538,8 @@ func runC01Proc(c C01ProcCase, _ bool) *fOutcome {
 	}
 	if leasedLeft > 0 {
 		time.Sleep(1100 * time.Millisecond)
-		got := 0
-		for k := 0; k < 20 && got < leasedLeft; k++ {
+		got, unanswered := 0, 0
+		for deadline := time.Now().Add(10 * time.Second); got < leasedLeft && time.Now().Before(deadline); {
 			r := do("POST", fmt.Sprintf("http://127.0.0.1:%d/pull/p/dequeue", pPull), []byte(`{"batch":100,"lease_ttl":"30s"}`), map[string]string{"Content-Type": "application/json", "Authorization": "Bearer t"})
 			var resp struct {
 				Items []struct {
@@ -536,10 +547,31 @@ func runC01Proc(c C01ProcCase, _ bool) *fOutcome {
 				} `json:"items"`
 			}
 			_ = json.Unmarshal(r.body, &resp)
+			if r.status == 0 {
+				unanswered++
+			}
 			if len(resp.Items) == 0 {
-				break
+				if got > 0 && r.status == 200 && unanswered == 0 {
+					// an answered, empty dequeue after some were handed out: ask twice more, then stop
+					time.Sleep(50 * time.Millisecond)
+					r2 := do("POST", fmt.Sprintf("http://127.0.0.1:%d/pull/p/dequeue", pPull), []byte(`{"batch":100,"lease_ttl":"30s"}`), map[string]string{"Content-Type": "application/json", "Authorization": "Bearer t"})
+					_ = json.Unmarshal(r2.body, &resp)
+					if r2.status == 200 && len(resp.Items) == 0 {
+						break
+					}
+					got += len(resp.Items)
+					continue
+				}
+				time.Sleep(100 * time.Millisecond)
+				continue
 			}
 			got += len(resp.Items)
+		}
+		if got < leasedLeft && unanswered > 0 {
+			stop()
+			out.Skipped = "dequeue requests after the restart went unanswered (machine load)"
+			out.Labels["inconclusive-time-budget"] = true
+			return out
 		}
 		if got < leasedLeft {
 			stop()
